@@ -291,6 +291,10 @@ deriving DecidableEq, Repr, Inhabited
 /-- The parts of `TimeParserConfiguration` that `match_to_time` calls. Errors: `"KeyError"`, `"ValueError"`, `"Other"`. -/
 structure TimeCfg where
   numbers : List (Str × Nat)
+  /-- Variant switch (DESIGN 2.5). `true` = the code as found: `if not hour: return result`, which treats hour `0`
+  like a missing hour (defect `hour0-unresolved`); `false` = the repaired test `if hour is None`. The
+  correspondence check determines which variant the working tree follows. -/
+  zeroHourIsNone : Bool := true
   adjustByPrefix : Str → Adjust → Except String Adjust
   adjustBySuffix : Str → Adjust → Except String Adjust
 
@@ -338,10 +342,10 @@ def decodeFields (u : Uni) (cfg : TimeCfg) (g : TimeGroups) : Except String (Opt
       else do
         let h : Option Int ← (if isNumericStr u g.hour then do pure (some (← intOf u g.hour))
                              else pure ((lookup cfg.numbers g.hour).map Int.ofNat))
-        -- `if not hour: return result` — `None` and `0` are both falsy
+        -- `if not hour: return result` — `None` and `0` are both falsy (repaired variant: `if hour is None`)
         match h with
         | none => pure none
-        | some v => if v = 0 then pure none else pure (some v)
+        | some v => if cfg.zeroHourIsNone && v == 0 then pure none else pure (some v)
     match (← hour?) with
     | none => return none
     | some hour =>
